@@ -242,6 +242,46 @@ func C06(r *h.Run) {
 	}
 	r.Sum.Exhaustive["HTTP statuses 100..599 for unary Connect (sampled bodies per status; all bodies for 200/403/404/429/500; thorough: all)"] = true
 
+	// ---- the declared Content-Length is a header value like any other: whatever it says, and
+	// however little of it arrives, the call returns (largest values last: trusting them for an
+	// allocation kills the process rather than panicking) ----
+	for _, proto := range []string{"connect", "grpc", "grpcweb"} {
+		for _, kind := range []string{"unary", "server"} {
+			for _, declared := range []int64{0, 1, 3, 1 << 20, 1 << 31, 1<<63 - 1, 1 << 62, 1 << 40} {
+				cfg := envCfg{Proto: proto}
+				hdr, term, trailer := responseParts(cfg)
+				if proto == "connect" && kind == "unary" {
+					hdr = http.Header{"Content-Type": {"application/toy"}}
+					term = nil
+				}
+				hdr.Set("Content-Length", fmt.Sprint(declared))
+				body := append([]byte("ab"), term...)
+				if !(proto == "connect" && kind == "unary") {
+					body = append(h.Frame(0, []byte("ab")), term...)
+				}
+				fin := h.FinUnexpectedEOF // what net/http reports when the body is shorter than declared
+				if int64(len(body)) >= declared {
+					fin = h.FinCleanEOF
+				}
+				in := map[string]any{"proto": proto, "kind": kind, "status": 200, "declared_content_length": declared, "body_bytes_present": len(body)}
+				r.Eval("declared_length", fmt.Sprint(proto, kind, declared))
+				if declared >= 1<<36 {
+					r.Attempt(h.Failure{Key: "client/hang-or-panic", Family: "declared_length", What: "the process died (fatal runtime error, e.g. out of memory) during this call", Input: in})
+				}
+				res := doCall(cfg, kind, func() *http.Response {
+					resp := h.NewResponse(200, hdr.Clone(), h.NewChunkBody([][]byte{body}, fin), trailer)
+					resp.ContentLength = declared
+					return resp
+				})
+				r.Survived()
+				if !check("declared_length", in, res) {
+					continue
+				}
+				r.Sample("declared_length", map[string]any{"in": in, "error": fmt.Sprint(res.err)})
+			}
+		}
+	}
+
 	// ---- streaming Connect / gRPC / gRPC-Web: every status ----
 	for _, proto := range []string{"connect", "grpc", "grpcweb"} {
 		for _, status := range statuses {
